@@ -179,7 +179,7 @@ func (c *runCtx) stateSync(back int) {
 // nothing; the block-time window (max gas) is not part of a genesis.
 type RoundTrip struct {
 	VerifyErr string            `json:"verifyErr"`
-	Folded    bool              `json:"folded"` // the export had pending stake updates: stake-derived values are compared at the import only
+	Folded    bool              `json:"folded"` // the export was not taken at a stake-recalculation height or had pending stake updates: stake-derived values are compared at the import only
 	D         string            `json:"d"`      // digest of the normalised state
 	Fields    map[string]string `json:"fields"` // digest per top-level field, to name what differs
 }
@@ -189,9 +189,11 @@ type RoundTrip struct {
 func normalise(a *Abs, folded bool) map[string]interface{} {
 	m := normaliseAll(a)
 	if folded {
-		delete(m, "cands")
-		delete(m, "vals")
-		delete(m, "slashed")
+		// stakes and validators are recalculated by the import one period early; punishments, payouts and maturities carry the
+		// difference into frozen funds, the wait list, total slashed and balances
+		for _, f := range []string{"cands", "vals", "slashed", "frozen", "wait", "bal"} {
+			delete(m, f)
+		}
 	}
 	return m
 }
@@ -274,6 +276,9 @@ func (c *runCtx) exportImport() {
 		if len(cd.Updates) > 0 {
 			c.folded = true
 		}
+	}
+	if c.h%a.W.StakePeriod != 0 {
+		c.folded = true // InitChain recomputes the validator set at once; the original chain does so at the next period boundary
 	}
 	rec.RT = roundTripOf(da, false)
 	rec.RT.Folded = c.folded
